@@ -61,7 +61,17 @@ pub fn probe(opts: &Opts) -> i32 {
         p.is_some() || q.is_some()
     };
     drop(before);
+    let rectrace = opts.str("rectrace", "");
+    let tracer = if rectrace.is_empty() { None } else { Some(crate::crash::Tracer::new()) };
+    if let Some(t) = &tracer {
+        feoxdb::verif::dev::install(Some(t.clone()));
+    }
     let r = std::panic::catch_unwind(|| open_store(&path, ttl, allow, false, None));
+    if let Some(t) = &tracer {
+        feoxdb::verif::dev::install(None);
+        let blocks = std::fs::metadata(&path).map(|m| m.len() / 4096).unwrap_or(0);
+        t.save(&rectrace, blocks, ttl);
+    }
     let line = match r {
         Err(_) => "PANIC".to_string(),
         Ok(Err(e)) => {
